@@ -703,39 +703,17 @@ fn test_exponent() {
 
 /// Build a high precision float from each part of literal
 fn calculate_float64_from_parts(left: DigitSequence, right: DigitSequence, exponent: i64) -> f64 {
-    let mut left_combined = 0f64;
-    for digit in left {
-        left_combined *= 10f64;
-        left_combined += digit as f64;
+    // Write the literal as <all digits>e<scaled exponent> and use the correctly rounded standard conversion
+    // Accumulating digit by digit in floating point rounds at every step and is not exact
+    let scaled_exponent = exponent.saturating_sub(right.len() as i64);
+    let mut text = String::with_capacity(left.len() + right.len() + 24);
+    for digit in left.iter().chain(right.iter()) {
+        text.push(char::from(b'0' + *digit as u8));
     }
-    let left_float = left_combined;
-
-    let mut right_combined = 0f64;
-    let right_len = right.len();
-    for digit in right {
-        right_combined *= 10f64;
-        right_combined += digit as f64;
-    }
-    let mut right_float = right_combined;
-    for _ in 0..right_len {
-        right_float /= 10f64;
-    }
-
-    let mantissa = left_float + right_float;
-    let mut value64 = mantissa;
-    if exponent > 0 {
-        for _ in 0..exponent {
-            value64 *= 10f64;
-        }
-    } else {
-        let mut m = 1.0;
-        for _ in 0..(-exponent) {
-            m *= 10f64;
-        }
-        value64 /= m;
-    }
-
-    value64
+    text.push('e');
+    text.push_str(&scaled_exponent.to_string());
+    text.parse::<f64>()
+        .expect("digit sequence with exponent is a valid float")
 }
 
 /// Parse a float literal
